@@ -117,6 +117,7 @@ def run_cmds(case, scratch, stats=None):
             stats.outcomes[f'{label.split(":")[0]}/{cls}'] += 1
         if sig:
             sig = dict(sig, cmd=label.split(':')[0])
+            sig.update(case.get('sig_extra') or {})
             files = case['tree']['files']
             if any(os.path.basename(p).startswith('Manifest') and b'\\x00' in (d if isinstance(d, bytes) else b'')
                    for p, d in files.items()):
@@ -196,7 +197,8 @@ def fam_G(spec, tier, seed, scratch, stats):
     tag = c09.TAGS_A[ti]
     paths = c09.paths_a(seed) + c09.TS_FORMS
     sizes = c09.SIZES_A if tier == 'thorough' else ['1', '', '-1', '18446744073709551616']
-    tails = (c09.TAILS_A + [['FOO', '00']]) if tier == 'thorough' else [[], ['MD5', 'd41d8cd9'], ['FOO', '00']]
+    nonascii = [['SHA1', '\u00e9\u00e9\u00e9\u00e9'], ['MD5', '9dd4e461268c8034f5c8564e155c67a6', 'SHA1', '\uff11' * 40]]
+    tails = ((c09.TAILS_A + [['FOO', '00']]) if tier == 'thorough' else [[], ['MD5', 'd41d8cd9'], ['FOO', '00']]) + nonascii
     extras = c09.EXTRAS_A if tier == 'thorough' else [[]]
     n = c09.NAMES[seed % 5]
     d = c09.NAMES[(seed + 1) % 5]
@@ -274,6 +276,11 @@ def odd_corners():
     yield 'manifest_under_ignored_dir', mk(
         flat + [('L', 'IGNORE ig'), ('L', 'MANIFEST ig/Manifest %d SHA1 %s' % (len(subm), _h.sha1(subm).hexdigest()))],
         raw={'ig/Manifest': subm, 'ig/f1': b'one'})
+    yield 'non_ascii_checksum', mk([('L', 'DATA f0 4 SHA1 \u00e9\u00e9\u00e9\u00e9')] + flat[1:] if False else
+                                   [('L', 'DATA f0 4 SHA1 \u00e9\u00e9\u00e9\u00e9')] + [x for x in flat if x[2] != 'f0'])
+    yield 'non_ascii_checksum_manifest_entry', mk(
+        [x for x in flat if not x[2].startswith('d/')] + [('L', 'MANIFEST d/Manifest %d MD5 \u2014' % len(subm))],
+        raw={'d/Manifest': subm, 'd/e/f2': b'two!'})
     yield 'empty_manifest', mk([])
     yield 'non_utf8_filename', mk(flat, raw={'d/bad\udcff name': b'x'})
     yield 'non_utf8_dirname', mk(flat, raw={'bad\udc80dir/x': b'x'})
@@ -312,12 +319,81 @@ def fam_O(spec, tier, seed, scratch, stats):
         cmds.append(('badoption', ['verify', '--no-such-option', '{root}']))
         cmds.append(('update-nohashes', ['update', '{root}']))
         cmds.append(('update-badjobs', ['update', '-j', '0', '-H', 'SHA1', '{root}']))
-    c = {'family': 'O', 'tree': tj, 'cmds': cmds, 'desc': f'odd corner {name}'}
+    c = {'family': 'O', 'tree': tj, 'cmds': cmds, 'desc': f'odd corner {name}', 'sig_extra': {'corner': name}}
     for x in run_cmds(c, scratch, stats):
-        x['sig']['corner'] = name
         stats.violation(x['sig'], x['case'], x['message'])
     stats.case(('O', name), nontrivial=True)
     stats.sample({'family': 'O', 'corner': name, 'commands': len(cmds)})
+
+
+K_TAGS = ('DATA', 'MISC', 'EBUILD', 'AUX', 'MANIFEST', 'IGNORE', 'DIST')
+K_KINDS = ('dir', 'hidden_dir', 'file', 'hidden_file', 'missing', 'symlink_dir', 'symlink_file', 'broken_symlink',
+           'manifest_file')
+
+
+def k_tree(tag, kind, where, dup):
+    """A consistent small tree plus ONE extra entry of type ``tag`` naming an object of ``kind``."""
+    B = {'f0': b'zero', 'd/f1': b'one', 'g/f3': b''}
+    base = 'd' if where == 'sub' else ''
+    j = (lambda n: f'{base}/{n}' if base else n)
+    name = {'dir': 'objdir', 'hidden_dir': '.objdir', 'file': 'obj', 'hidden_file': '.obj', 'missing': 'gone',
+            'symlink_dir': 'lnkd', 'symlink_file': 'lnkf', 'broken_symlink': 'lnkb', 'manifest_file': 'm/Manifest'}[kind]
+    files, links, dirs = dict(B), {}, []
+    if kind in ('dir', 'hidden_dir'):
+        files[j(name) + '/inner'] = b'in'
+    elif kind in ('file', 'hidden_file'):
+        files[j(name)] = b'obj'
+    elif kind == 'symlink_dir':
+        links[j(name)] = 'g' if not base else '../g'
+    elif kind == 'symlink_file':
+        links[j(name)] = 'f0' if not base else '../f0'
+    elif kind == 'broken_symlink':
+        links[j(name)] = 'nowhere'
+    elif kind == 'manifest_file':
+        files[j(name)] = b'DATA x 1\n'
+        files[j('m/x')] = b'x'
+    rel = name
+    if tag == 'AUX':
+        line = f'AUX {rel} 3'
+    elif tag == 'IGNORE':
+        line = f'IGNORE {rel}'
+    elif tag == 'DIST':
+        line = f'DIST {rel.replace("/", "_")} 3 SHA1 ' + '0' * 40
+    else:
+        line = f'{tag} {rel} 3 SHA1 ' + '0' * 40
+    lines = [('L', line)] * dup
+    H1 = ('SHA1',)
+    t = Tree(files, links, dirs)
+    listed = [p for p in sorted(B)]
+    if where == 'sub':
+        specs = [MSpec(TOP, [('F', 'DATA', 'f0', H1), ('F', 'DATA', 'g/f3', H1), ('M', 'd/Manifest', H1)]),
+                 MSpec('d/Manifest', [('F', 'DATA', 'd/f1', H1)] + lines)]
+    else:
+        specs = [MSpec(TOP, [('F', 'DATA', p, H1) for p in listed] + lines)]
+    render_layout(t, specs)
+    return t
+
+
+def fam_K(spec, tier, seed, scratch, stats):
+    _k, tag = spec
+    for kind, where, dup in itertools.product(K_KINDS, ('top', 'sub'), (1, 2)):
+        tree = k_tree(tag, kind, where, dup)
+        cmds = [('verify', ['verify', '{root}']), ('verify-k', ['verify', '-k', '{root}']),
+                ('verify:d', ['verify', '{root}/d'])]
+        for prof in PROFILES:
+            h = ['-H', 'SHA1'] if prof == 'default' else []
+            cmds.append((f'update:{prof}', ['update', '-p', prof] + h + ['{root}']))
+            cmds.append((f'update:{prof}:d', ['update', '-p', prof] + h + ['{root}/d']))
+            cmds.append((f'create:{prof}', ['create', '-p', prof] + h + ['{root}']))
+        cmds.append(('update-f', ['update', '-f', '-H', 'SHA1', '{root}']))
+        c = {'family': 'K', 'tree': tree.to_json(), 'cmds': cmds,
+             'desc': f'{tag} entry (x{dup}) naming a {kind} in the {where} Manifest',
+             'sig_extra': {'entry': f'{tag}->{kind}'}}
+        for x in run_cmds(c, scratch, stats):
+            stats.violation(x['sig'], x['case'], x['message'])
+        stats.case(('K', tag, kind, where, dup), nontrivial=True)
+    if len(stats.samples) < 1:
+        stats.sample({'family': 'K', 'tag': tag, 'kinds': K_KINDS, 'commands_per_tree': len(cmds)})
 
 
 def shards(tier, seed):
@@ -336,12 +412,13 @@ def shards(tier, seed):
     out += [('U', name) for name, _f in scen.priors()]
     out += [('G', ti) for ti in range(len(c09.TAGS_A))]
     out += [('O', name) for name, _t in odd_corners()]
+    out += [('K', tag) for tag in K_TAGS]
     return out
 
 
 def run_shard(spec, tier, seed, scratch):
     stats = Stats()
-    {'T': fam_T, 'U': fam_U, 'G': fam_G, 'O': fam_O}[spec[0]](spec, tier, seed, scratch, stats)
+    {'T': fam_T, 'U': fam_U, 'G': fam_G, 'O': fam_O, 'K': fam_K}[spec[0]](spec, tier, seed, scratch, stats)
     stats.counters['family_' + spec[0]] += 1
     return stats
 
